@@ -122,7 +122,10 @@ class Run(object):
                 self.cls = ecfg["cls"]
                 self.p = sut.construct(self.cls, m07.initial_snapshot(ecfg), ecfg["const"])
                 v = np.array(self.p.psd)
+                # complex-data_y cross spectra: only the lengths and labels are modelled (see _rebase)
             self._rebase(v)
+        except Violation as v_:
+            self.violation = v_
         except Exception as e:
             self.init_error = type(e).__name__ + ": " + str(e)[:80]
 
@@ -133,8 +136,12 @@ class Run(object):
         self.stats[k] = self.stats.get(k, 0) + n
 
     # -- model -----------------------------------------------------------
-    def _rebase(self, stored):
+    def _rebase(self, stored, approx=False):
+        """approx=True: the stored vector is a fresh object's computation of the same estimate, which an
+        implementation may reach by another arithmetic route (e.g. rescaling instead of recomputing): values
+        are then compared to 1e-9 instead of bit for bit."""
         p = self.p
+        self.approx = approx
         # real data: NFFT is not touched by a psd assignment; complex data: documented to become len(psd)
         self.M = len(stored) if self.cplx else int(p.NFFT)
         self.store_sides = default_sides(self.cplx)
@@ -151,12 +158,14 @@ class Run(object):
                 self.model_ok = False
                 self.stored = self.stored.real.copy()
         if len(self.stored) != len(refmodel.bins_of(self.store_sides, self.M)):
-            raise ValueError("stored vector of length %d does not fit %s with NFFT=%d"
-                             % (len(self.stored), self.store_sides, self.M))
+            # a computed PSD whose length is not that of its own representation is already the `len` clause
+            raise Violation("len", len(self.ops), "the %s PSD of %s data has %d values, frequencies(%r) for NFFT=%d has %d"
+                            % ("computed" if self.cfg["kind"] == "est" else "stored", "complex" if self.cplx else "real",
+                               len(self.stored), self.store_sides, self.M, len(refmodel.bins_of(self.store_sides, self.M))))
         self.T = refmodel.canonical_from(self.stored, self.store_sides, self.M)
         self.sides = self.store_sides
         # a PSD handed in as float32 may legitimately be processed in float32
-        self.rtol = 1e-6 if np.asarray(stored).dtype == np.float32 else 1e-12
+        self.rtol = 1e-6 if np.asarray(stored).dtype == np.float32 else (1e-9 if approx else 1e-12)
 
     def abstate(self):
         return (self.cls, self.cplx, self.M % 2, self.sides)
@@ -201,7 +210,7 @@ class Run(object):
         else:
             expect = np.array([T[b % M] for b in bins])
         permutation_only = (self.store_sides != "onesided" and target != "onesided") or target == self.store_sides
-        if permutation_only:
+        if permutation_only and not self.approx:
             okv = exact_equal(got, expect)
         else:
             okv = close(got, expect, rtol=self.rtol)
@@ -217,7 +226,7 @@ class Run(object):
         if abs(s1 - s0) > self.rtol * max(abs(s0), float(np.sum(np.abs(self.stored))), 1e-300) * max(1, len(got)):
             return Violation("power", idx, "%s sums to %r, the stored PSD to %r" % (what, s1, s0))
         # restore
-        if target == self.store_sides and not exact_equal(got, self.stored):
+        if target == self.store_sides and not self.approx and not exact_equal(got, self.stored):
             return Violation("restore", idx, "%s is back in the stored representation but is not bit-identical "
                              "to the stored values" % what)
         return None
@@ -406,10 +415,15 @@ class Run(object):
     # never read by the harness while the invalidation is pending (a read is itself an event).
     def _op_invalidate(self, idx, op):
         p = self.p
+        nfft_before = p.NFFT
         try:
             setattr(p, op["attr"], m07.dec_data(op["value"]) if op["attr"] == "data" else op["value"])
         except Exception as e:
             return None, "raised:" + type(e).__name__
+        if op["attr"] == "NFFT" and p.NFFT == nfft_before and not self.pending:
+            return self._check_object(idx), "ok"      # another spelling of the current value: nothing changed
+        self.cplx = p.datatype == "complex"
+        self.M = int(p.NFFT)
         try:
             ecfg = self.cfg["est"]
             fresh = sut.construct(self.cls, sut.snapshot(self.cls, p), ecfg["const"])
@@ -421,8 +435,10 @@ class Run(object):
             self.bump("invalidate_to_uncomputable")
             return None, "ok"
         keep = self.sides
-        self._rebase(v)
-        self.sides = keep            # the label is only reset when the recomputation happens
+        self._rebase(v, approx=True)
+        # the label is only reset when the recomputation happens - except that an NFFT change resets it
+        # at once (documented: "If NFFT is changed, sides is reset")
+        self.sides = keep if op["attr"] != "NFFT" else p.sides
         self.pending = True
         self.paths = []
         self.bump("probe:invalidation_while_sides_%s" % ("default" if keep == self.store_sides else "nondefault"))
@@ -695,7 +711,7 @@ def run_numeric(seed, stratum, index):
     cfg = {"kind": "base", "cplx": bool(cplx), "M": M, "N": max(2, M), "sampling": fs,
            "vec": enc_array(gen_vector(rng, n, "distinct")), "vkind": "distinct"}
     run = Run(cfg)
-    if run.init_error is not None:
+    if run.init_error is not None or run.violation is not None:
         return run
     walk = ["centerdc", "twosided", "centerdc"] if cplx else ["centerdc", "onesided", "twosided", "onesided"]
     if run.step({"op": "read"}):
@@ -720,7 +736,7 @@ def run_systematic(seed, stratum, index):
     rng = random.Random(seed)
     cfg = base_cfg(rng, cplx, M, kind, b)
     run = Run(cfg)
-    if run.init_error is not None:
+    if run.init_error is not None or run.violation is not None:
         return run
     if run.step({"op": "read"}):
         return run
@@ -758,7 +774,13 @@ def gen_helper_chain(rng, M):
 
 def gen_invalidate(rng, run):
     p = run.p
-    kind = rng.choice(["sampling", "scale_by_freq", "data"])
+    kind = rng.choice(["sampling", "scale_by_freq", "data", "data", "NFFT", "NFFT", "dataflip"])
+    if kind == "NFFT":
+        cur = p.NFFT
+        cands = [None, "nextpow2", p.N + 4, p.N + 5, 2 * p.N, cur + 1, cur + 2]
+        return {"op": "invalidate", "attr": "NFFT", "value": rng.choice([c for c in cands if c != cur])}
+    if kind == "dataflip":
+        return {"op": "invalidate", "attr": "data", "value": m07.enc_data(m07.gen_signal(rng, p.N, not run.cplx))}
     if kind == "sampling":
         return {"op": "invalidate", "attr": "sampling", "value": rng.choice([x for x in (0.5, 1.0, 2.0, 4.0, 1000.0) if x != p.sampling])}
     if kind == "scale_by_freq":
@@ -836,7 +858,7 @@ def run_random(seed):
     else:
         cfg = est_cfg(rng)
     run = Run(cfg)
-    if run.init_error is not None:
+    if run.init_error is not None or run.violation is not None:
         return run
     if run.step({"op": "read"}):
         return run
@@ -862,7 +884,7 @@ def run_index(stratum, index, base_seed, ctx):
 
 def replay(cfg, ops, pristine=None, pristine_final=False):
     run = Run(cfg)
-    if run.init_error is not None:
+    if run.init_error is not None or run.violation is not None:
         return run
     for op in ops:
         if run.step(op):
